@@ -1,162 +1,630 @@
-"""C12 — log encoding (DESIGN §5 C12)."""
-from .common import *
+"""C12 — log encoding (DESIGN §5 C12).
 
-INST = 'v1::Instance'; DV = 'v1::DecisionVariable'
+Written against the normal form (`VIEW = 'norm'`).  The rules are phrased on roles, not on shapes:
+
+  encoding loop L   the `for` loop (after normalisation) that pushes onto `self.decision_variables`
+  targets           what must not happen for an invalid input: an Ok-exit, a push, entering L
+  test              a decision point (bool switch, `?`, `match` on an Option / enum / Ordering) with a set of
+                    *pass* successors and a set of *fail* successors
+  a test protects   (i) no target is feasibly reachable from a fail successor, but an Err-exit is, and
+                    (ii) no target is feasibly reachable from the entry without passing the test's block
+  feasible          reachability that remembers which variant an Option / Result / ControlFlow temporary
+                    and which constant a short-circuit bool holds on the path (so a helper inlined as
+                    `r = Err(..) | Ok(..); match branch(r)` keeps its error paths apart from its Ok path)
+
+Idioms accepted for each test are listed in the tables / functions below, one comment per entry.
+"""
+import re
+from .common import *
+from .C09 import root_of, agg_def, seq_sources, pushes_into, _whole_defs, _callmap, REF_TRANSPARENT
+
+VIEW = 'norm'
+
+INST = 'v1::Instance'; DV = 'v1::DecisionVariable'; BOUND = 'v1::Bound'
+# hands on the same sequence: vec.into_iter() / vec.iter() / &vec
+SEQ_TRANSPARENT = re.compile(r'::(into_iter|iter|as_ref|deref|as_slice|by_ref)(::<.*>)?$')
+
+
+# ---------------------------------------------------------------------------------------------------
+# normal-form extension local to this module (see notes): a lazily mapped iterator handed to a crate
+# function that drains it in one complete `for` loop  ≡  collect first, then hand over the Vec
+def drains_param(ctx, cb, p):
+    """callee body `cb` walks parameter p in a `for` loop that is only left when the iterator is exhausted"""
+    for lo in T.for_loops(cb):
+        nextc, header, some_bb, none_bb, blocks = lo
+        leaves = seq_sources(cb, nextc.args[0])
+        if leaves != [('other', 'parameter _%d' % p, True)]: continue
+        early = False
+        for b in blocks:
+            for s in cb.succ(b):
+                if s in blocks or cb.blocks[s]['cleanup'] or s == none_bb: continue
+                if cb.is_panic_block(s): continue
+                early = True
+        if not early: return True
+    return False
+
+
+def eagerise(ctx, body):
+    """`g(it.map(K), ..)`, g a crate function draining that parameter  ->  explicit loop pushing K(item) + `g(vec, ..)`"""
+    from .. import normalize as NZ
+    N = NZ.Normalizer(ctx.F, None, True)
+    rw = NZ.Rewriter(body.d); rw.promoted_of = N._promoted_of
+    done_any = False
+    for bi in range(len(rw.blocks)):
+        b = rw.blocks[bi]; t = b['term']
+        if b['cleanup'] or t['k'] != 'call' or t.get('synthetic') or t['t'] < 0: continue
+        cb = ctx.F.bodies.get(t.get('rp') or t.get('fp') or '')
+        if cb is None or cb.kind != 'fn': continue
+        for ai, a in enumerate(t['args']):
+            if a['k'] not in ('move', 'copy') or a['pl']['p']: continue
+            try:
+                base, chain = N._walk_chain(rw, a['pl']['l'])
+            except Exception:
+                continue
+            if not chain or not drains_param(ctx, cb, ai + 1): continue
+            span = t.get('span'); line = (span or {}).get('lo', 0)
+            orig = dict(t)
+            N._strip_adaptors(rw, chain)
+            it = rw.new_local('?iter'); coll = rw.new_local('std::vec::Vec<?>')
+            b['st'].append(NZ._use(it, a, line))
+            head = rw.new_block(); done = rw.new_block()
+            o, some = N._emit_next(rw, head, it, span, done)
+            entry, last, item_op, cont = N._emit_adaptors(rw, chain, NZ._mv(o, NZ.SOME0), span, head, done)
+            rw.goto(some, entry)
+            b['term'] = NZ.mk_call('std::vec::Vec::<T>::new', 'std::vec::Vec::<T>::new', None, 'std::vec::Vec::<T>', 'new', [], coll, head, span)
+            N._emit_push(rw, last, coll, 'Vec', item_op, span, cont)
+            t2 = dict(orig); t2['args'] = [(NZ._mv(coll) if k == ai else x) for k, x in enumerate(orig['args'])]
+            rw.blocks[done]['term'] = t2
+            done_any = True
+            break
+    if not done_any: return body
+    from ..facts import Body
+    d = dict(rw.d); d['fn'] = body.name + '#eager'; d['parent'] = body.parent
+    nb = Body(d); nb.facts = ctx.F
+    return nb
+
+
+# ---------------------------------------------------------------------------------------------------
+# feasible reachability
+VARIANTS = (('Result::Ok', 'ok'), ('Result::Err', 'err'), ('Option::Some', 'some'), ('Option::None', 'none'),
+            ('ControlFlow::Continue', 'cont'), ('ControlFlow::Break', 'brk'))
+DISCR_OF = {'ok': 0, 'err': 1, 'none': 0, 'some': 1, 'cont': 0, 'brk': 1}
+
+
+def _variant(adt):
+    for suf, v in VARIANTS:
+        if adt.endswith(suf): return v
+    return None
+
+
+def _plain(o):
+    return o['k'] in ('copy', 'move') and not o['pl']['p']
+
+
+def _tracked(body):
+    t = getattr(body, '_c12_tracked', None)
+    if t is not None: return t
+    base = set()
+    for bi, st in body.stmts():
+        d = st['dst']; rv = st['rv']
+        if d['p']: continue
+        if rv['k'] == 'agg' and _variant(rv['adt']): base.add(d['l'])
+        elif rv['k'] == 'use' and rv['ops'][0]['k'] == 'const' and rv['ops'][0]['v'] in ('true', 'false') and body.locals[d['l']] == 'bool': base.add(d['l'])
+    for c in body.calls:
+        if T.FROM_RESIDUAL.search(c.name) and not c.dst['p']: base.add(c.dst['l'])
+    changed = True
+    while changed:
+        changed = False
+        for bi, st in body.stmts():
+            d = st['dst']; rv = st['rv']
+            if d['p'] or d['l'] in base: continue
+            if rv['k'] in ('use', 'un') and _plain(rv['ops'][0]) and rv['ops'][0]['pl']['l'] in base: base.add(d['l']); changed = True
+            elif rv['k'] == 'discr' and not rv['pl']['p'] and rv['pl']['l'] in base: base.add(d['l']); changed = True
+        for c in body.calls:
+            if c.dst['p'] or c.dst['l'] in base: continue
+            if (T.TRY_BRANCH.search(c.name) or T.NOT_CALL.search(c.name) or T.ERR_ADAPTORS.search(c.name)) and c.arg_local(0) in base: base.add(c.dst['l']); changed = True
+    body._c12_tracked = base
+    return base
+
+
+def feasible_reach(body, starts, stop=(), via=None):
+    """forward reachability that follows only the matching arm of a switch whose operand is known on the path:
+    short-circuit bools (as templates.reach_cp) and the variant / discriminant of Option / Result / ControlFlow
+    temporaries (`x = Err(..)`, `b = Try::branch(x)`, `d = discriminant(b)`, `switch d`).
+    via = set of edges (a, b): return only the blocks reached *after* one of these edges was taken."""
+    key = (tuple(sorted(starts)), frozenset(stop), frozenset(via) if via else None)
+    cache = body.__dict__.setdefault('_c12_reach', {})
+    if key in cache: return cache[key]
+    tracked = _tracked(body)
+    seen = set(); out = set(); work = [(s, frozenset(), not via) for s in starts if s is not None and s not in stop]
+    res = None
+    while work:
+        bi, env, flag = work.pop()
+        if (bi, env, flag) in seen: continue
+        seen.add((bi, env, flag))
+        if flag: out.add(bi)
+        if len(seen) > 80000:
+            # give up: plain (over-approximate) reachability
+            if via: res = body.reach([b for a, b in via if a in body.reach([s for s in starts if s is not None], stop)], stop)
+            else: res = body.reach([s for s in starts if s is not None], stop)
+            break
+        e = dict(env)
+        blk = body.blocks[bi]
+        for st in blk['st']:
+            if 'dst' not in st: continue
+            d = st['dst']
+            if d['l'] not in tracked: continue
+            l = d['l']
+            if d['p']: e.pop(l, None); continue
+            rv = st['rv']; k = rv['k']; val = None
+            if k == 'agg': val = _variant(rv['adt'])
+            elif k == 'use':
+                o = rv['ops'][0]
+                if o['k'] == 'const' and o['v'] in ('true', 'false'): val = 1 if o['v'] == 'true' else 0
+                elif _plain(o): val = e.get(o['pl']['l'])
+            elif k == 'un' and rv['op'] == 'Not' and _plain(rv['ops'][0]):
+                v = e.get(rv['ops'][0]['pl']['l'])
+                if v in (0, 1): val = 1 - v
+            elif k == 'discr' and not rv['pl']['p']:
+                v = e.get(rv['pl']['l'])
+                if isinstance(v, str): val = DISCR_OF[v]
+            if val is None: e.pop(l, None)
+            else: e[l] = val
+        t = blk['term']
+        succs = body.succ(bi)
+        if t['k'] == 'call':
+            dl = t['dst']['l']
+            if dl in tracked:
+                nm = t['r'] or t['f']; a0 = t['args'][0] if t['args'] else None
+                v0 = e.get(a0['pl']['l']) if a0 is not None and _plain(a0) else None
+                val = None
+                if not t['dst']['p']:
+                    if T.NOT_CALL.search(nm) and v0 in (0, 1): val = 1 - v0
+                    elif T.TRY_BRANCH.search(nm) and isinstance(v0, str): val = 'cont' if v0 in ('ok', 'some', 'cont') else 'brk'
+                    elif T.ERR_ADAPTORS.search(nm) and isinstance(v0, str):
+                        # with_context / ok_or / map_err / map / copied / as_ref ..: Some|Ok stays Some|Ok, None|Err stays None|Err
+                        pos = v0 in ('ok', 'some', 'cont'); ty = body.locals[dl].lstrip('&')
+                        if ty.startswith('std::result::Result'): val = 'ok' if pos else 'err'
+                        elif ty.startswith('std::option::Option'): val = 'some' if pos else 'none'
+                    elif T.FROM_RESIDUAL.search(nm): val = 'err' if nm.startswith('<std::result::Result') else ('none' if nm.startswith('<std::option::Option') else None)
+                if val is None: e.pop(dl, None)
+                else: e[dl] = val
+        elif t['k'] == 'switch' and t['d']['k'] != 'const' and not t['d']['pl']['p']:
+            v = e.get(t['d']['pl']['l'])
+            if isinstance(v, int):
+                m = {val: tg for val, tg in t['ts']}
+                succs = [m.get(v, t['else'])]
+        fe = frozenset(e.items())
+        for s in succs:
+            if s in stop or body.blocks[s]['cleanup']: continue
+            work.append((s, fe, flag or (bi, s) in via if via else flag))
+    if res is None: res = out
+    cache[key] = res
+    return res
+
+
+# ---------------------------------------------------------------------------------------------------
+# tests
+class Test:
+    def __init__(self, sb, passes, fails, what, fail_edges=None):
+        self.sb = sb; self.passes = [x for x in passes if x is not None]; self.fails = fails; self.what = what
+        self.fail_edges = set(fail_edges) if fail_edges else {(sb, f) for f in fails}     # CFG edges taken when the test fails
+
+    def describe(self):
+        return '%s: switch bb%d pass->%s fail->%s' % (self.what, self.sb, self.passes, self.fails)
+
+
+def protects(body, test, targets, need_err=True):
+    """(i) on no feasible path from the entry that leaves the test through a fail edge is a target reached
+    (but an Err-exit is), (ii) no target is reached from the entry without passing the test's block"""
+    if any(f is None for f in test.fails): return False
+    r = feasible_reach(body, [0], via=test.fail_edges)
+    if r & targets: return False
+    if need_err and not (r & body.err_exits()): return False
+    if feasible_reach(body, [0], stop={test.sb}) & targets: return False
+    return True
+
+
+def bool_tests(body, local, want_true, what):
+    """`if c`, `if !c`, `ensure!(c)`, `c && d`, `c || d`: every switch the bool flows into (through copies / Not)"""
+    out = []
+    for sb, neg in T.bool_flow(body, local):
+        tt, ft = T.switch_sides(body, sb, neg)
+        out.append(Test(sb, [tt] if want_true else [ft], [ft] if want_true else [tt], what))
+    return out
+
+
+def option_tests(body, local, what, depth=0):
+    """tests deciding on the None / Err of the Option / Result held in `local`:
+         `x?`, `x.with_context(..)?`, `x.ok_or(..)?`            -> the Break arm fails
+         `match x { Some(v) => .., None => .. }`, `let Some(v) = x else {..}`, `if let`  -> the None arm fails"""
+    out = []
+    if depth > 6: return out
+    fail_variant = 1 if body.locals[local].lstrip('&').startswith('std::result::Result') else 0
+    for kind, bi, x in body.uses.get(local, ()):
+        if kind == 'call':
+            if T.TRY_BRANCH.search(x.name):
+                for k2, b2, y in body.uses.get(x.dst['l'], ()):
+                    if k2 == 'stmt' and y['rv']['k'] == 'discr' and y['rv']['pl']['p'] == []:
+                        for k3, b3, sw in body.uses.get(y['dst']['l'], ()):
+                            if k3 == 'switch':
+                                m = {v: t for v, t in sw['ts']}
+                                out.append(Test(b3, [m.get(0, sw['else'])], [m.get(1, sw['else'])], what + ' ?'))
+            elif T.ERR_ADAPTORS.search(x.name):
+                out += option_tests(body, x.dst['l'], what, depth + 1)
+        elif kind == 'stmt':
+            rv = x['rv']
+            if rv['k'] == 'discr' and [p for p in rv['pl']['p'] if p != '*'] == []:
+                for k3, b3, sw in body.uses.get(x['dst']['l'], ()):
+                    if k3 == 'switch':
+                        m = {v: t for v, t in sw['ts']}
+                        out.append(Test(b3, [m.get(1 - fail_variant, sw['else'])], [m.get(fail_variant, sw['else'])], what + ' match'))
+            elif rv['k'] == 'use' and not x['dst']['p'] and _plain(rv['ops'][0]) and rv['ops'][0]['pl']['l'] == local:
+                out += option_tests(body, x['dst']['l'], what, depth + 1)
+            elif rv['k'] == 'ref' and not x['dst']['p'] and rv['pl']['p'] in ([], ['*']):
+                out += option_tests(body, x['dst']['l'], what, depth + 1)
+    return out
+
+
+def unwrap_operand(body, op, depth=24):
+    """follow copies and *payload projections* back to the operand that was wrapped:
+         (t.k) of `t = (a, b, ..)`;  (b as Continue).0 of `b = Try::branch(r)`;  (r as Ok).0 / (o as Some).0 where r / o has
+         exactly one definition of that variant (the other definitions being Err(..) / None: the shape a helper
+         inlined at `let (x, y) = helper(..)?;` leaves behind).  templates.expr stops at such locals."""
+    for _ in range(depth):
+        if op['k'] not in ('copy', 'move'): return op
+        l = op['pl']['l']; P = list(op['pl']['p'])
+        if 1 <= l <= body.argc: return op
+        defs = _whole_defs(body, l)
+        single = defs[0] if len(defs) == 1 else None
+        if single and single[0] == 'stmt' and single[2]['rv']['k'] == 'use' and single[2]['rv']['ops'][0]['k'] in ('copy', 'move'):
+            src = single[2]['rv']['ops'][0]['pl']
+            op = {'k': 'copy', 'pl': {'l': src['l'], 'p': list(src['p']) + P}}; continue
+        if not P: return op
+        p0 = P[0]
+        if single and single[0] == 'stmt' and single[2]['rv']['k'] == 'agg' and single[2]['rv']['adt'] == 'tuple' and isinstance(p0, dict) and p0.get('of') == 'tuple' and p0.get('f', '').isdigit():
+            k = int(p0['f']); ops = single[2]['rv']['ops']
+            if k < len(ops) and ops[k]['k'] in ('copy', 'move'):
+                op = {'k': 'copy', 'pl': {'l': ops[k]['pl']['l'], 'p': list(ops[k]['pl']['p']) + P[1:]}}; continue
+            if k < len(ops) and not P[1:]: return ops[k]
+            return op
+        if isinstance(p0, dict) and 'dc' in p0 and len(P) >= 2 and isinstance(P[1], dict) and P[1].get('f') == '0':
+            V = p0['dc']
+            if single and single[0] == 'call' and T.TRY_BRANCH.search(single[2]['r'] or single[2]['f']) and V == 'Continue':
+                a = single[2]['args'][0]
+                if a['k'] in ('copy', 'move') and not a['pl']['p']:
+                    ty = body.locals[a['pl']['l']].lstrip('&')
+                    W = 'Ok' if ty.startswith('std::result::Result') else ('Some' if ty.startswith('std::option::Option') else None)
+                    if W:
+                        op = {'k': 'copy', 'pl': {'l': a['pl']['l'], 'p': [{'dc': W}, {'f': '0', 'of': '?::' + W}] + P[2:]}}; continue
+                return op
+            pay = [d[2]['rv']['ops'][0] for d in defs if d[0] == 'stmt' and d[2]['rv']['k'] == 'agg' and d[2]['rv']['adt'].endswith('::' + V) and len(d[2]['rv']['ops']) == 1]
+            if len(pay) == 1 and pay[0]['k'] in ('copy', 'move'):
+                op = {'k': 'copy', 'pl': {'l': pay[0]['pl']['l'], 'p': list(pay[0]['pl']['p']) + P[2:]}}; continue
+        return op
+    return op
+
+
+def xexpr(body, op, depth=18):
+    return T.expr(body, unwrap_operand(body, op), depth)
+
+
+def is_zero(body, o):
+    if o['k'] == 'const': return T.f64_const(o['v']) == 0.0
+    e = T.strip_wrappers(T.expr(body, o, depth=6))
+    return e[0] == 'const' and T.f64_const(e[1]) == 0.0
+
+
+def is_rounded(e, fn, side):
+    """floor(bound.upper) / ceil(bound.lower)"""
+    e = T.strip_wrappers(e)
+    return e[0] == 'call' and e[1] == fn and 'f64' in e[2] and (BOUND, side) in T.expr_fields(e)
+
+
+def is_width(body, o):
+    """floor(upper) - ceil(lower): the number of integers in the bound, minus one"""
+    if o['k'] not in ('copy', 'move'): return False
+    e = T.arith(xexpr(body, o))
+    return e[0] == 'bin' and e[1] == 'Sub' and is_rounded(e[2], 'floor', 'upper') and is_rounded(e[3], 'ceil', 'lower')
+
+
+def width_tests(ctx, body):
+    """tests whose pass side implies  w = floor(upper) - ceil(lower) >= 0, and the arms on which w == 0.
+    (expression trees, not slices: `self` is mutated later in the function, so flow-insensitive slices of
+    anything read from `self` contain the whole encoding.)
+    returns (nonneg tests, [(bb of the test, arm entered when w == 0)])"""
+    nonneg = []; zero_arms = []
+    for bi, st in float_cmp_sites(body, ('Ge', 'Lt', 'Gt', 'Le', 'Eq')):
+        op = st['rv']['op']; a, b = st['rv']['ops']
+        za, zb = is_zero(body, a), is_zero(body, b)
+        want = None
+        if za != zb:
+            w = b if za else a
+            if not is_width(body, w): continue
+            if op == 'Eq':
+                # `w == 0.0` / `0.0 == w`
+                for sb, neg in T.bool_flow(body, st['dst']['l']):
+                    zero_arms.append((sb, T.switch_sides(body, sb, neg)[0]))
+                continue
+            # `w >= 0` true | `0 <= w` true | `w < 0` false | `0 > w` false
+            want = {('Ge', False): True, ('Le', True): True, ('Lt', False): False, ('Gt', True): False}.get((op, za))
+        elif not za and a['k'] != 'const' and b['k'] != 'const' and op != 'Eq':
+            # `floor(upper) >= ceil(lower)` and its mirror images
+            ea, eb = xexpr(body, a), xexpr(body, b)
+            if is_rounded(ea, 'floor', 'upper') and is_rounded(eb, 'ceil', 'lower'): want = {'Ge': True, 'Lt': False}.get(op)
+            elif is_rounded(ea, 'ceil', 'lower') and is_rounded(eb, 'floor', 'upper'): want = {'Le': True, 'Gt': False}.get(op)
+        if want is not None:
+            nonneg += bool_tests(body, st['dst']['l'], want, 'floor(upper) - ceil(lower) >= 0')
+    # `match w.partial_cmp(&0.0) { Some(Greater) => .., Some(Equal) => .., Some(Less) | None => error }`
+    for c in body.calls:
+        if c.item != 'partial_cmp' or 'f64' not in c.name or len(c.args) != 2: continue
+        za, zb = is_zero(body, c.args[0]), is_zero(body, c.args[1])
+        if za == zb: continue
+        w = c.args[1] if za else c.args[0]
+        if not is_width(body, w): continue
+        neg_discr = 1 if za else -1          # Ordering of (w cmp 0) that means w < 0: Less, or Greater when the operands are swapped
+        r = c.dst['l']
+        for k, bi, st in body.uses.get(r, ()):
+            if k != 'stmt' or st['rv']['k'] != 'discr' or st['rv']['pl']['p']: continue
+            for k3, b3, sw in body.uses.get(st['dst']['l'], ()):
+                if k3 != 'switch': continue
+                m = {v: t for v, t in sw['ts']}
+                none_t = m.get(0, sw['else']); some_t = m.get(1, sw['else'])
+                # the inner `match` on the Ordering payload
+                for k4, b4, st4 in body.uses.get(r, ()):
+                    if k4 != 'stmt' or st4['rv']['k'] != 'discr' or not any(isinstance(p, dict) and p.get('dc') == 'Some' for p in st4['rv']['pl']['p']): continue
+                    for k5, b5, sw5 in body.uses.get(st4['dst']['l'], ()):
+                        if k5 != 'switch' or b5 not in body.reach([some_t]): continue
+                        arms = {}
+                        for v, tg in sw5['ts']:
+                            sv = v - 256 if v == 255 else (v - (1 << 64) if v > (1 << 32) else v)
+                            arms[sv] = tg
+                        if neg_discr not in arms or 0 not in arms: continue
+                        other = [tg for v, tg in arms.items() if v not in (neg_discr, 0)] or [sw5['else']]
+                        # two switches decide: none_t leaves the outer one, arms[neg] the inner one
+                        nonneg.append(Test(b3, [arms[0]] + other, [none_t, arms[neg_discr]], 'partial_cmp(w, 0) is Equal or Greater', fail_edges=[(b3, none_t), (b5, arms[neg_discr])]))
+                        zero_arms.append((b5, arms[0]))
+    return nonneg, zero_arms
+
+
+# the largest defined id, one idiom per entry (all on an ordered set / map of the ids, or an explicit maximum)
+MAX_IDIOMS = [
+    r'BTreeSet::<u64>::(last|pop_last)$',                                                  # ids.last()
+    r'BTreeMap::<u64, .*>::(last_key_value|pop_last|last_entry)$',                         # map.last_key_value()
+    r'btree_set::(Iter|IntoIter)<.*> as std::iter::DoubleEndedIterator>::next_back$',      # ids.iter().next_back() / into_iter().next_back()
+    r'btree_set::(Iter|IntoIter)<.*> as std::iter::Iterator>::(last|max)$',                # ids.iter().last() (ascending order) / .max()
+    r'Rev<std::collections::btree_set::(Iter|IntoIter)<.*>> as std::iter::Iterator>::next$',  # ids.iter().rev().next()
+    r'Iterator>::(max|max_by_key)(::<.*>)?$',                                              # any_iter_of_ids.max()
+    r'Ord>::max$',                                                                         # fold / loop with a.max(b)
+]
+
+
+def fresh_id(ctx, rule, body, op, what, site):
+    """new ids derive from the largest defined decision-variable id plus one"""
+    s = slice_op(ctx, body, op)
+    probs = []
+    if not s.has_field(DV, 'id'): probs.append('does not depend on the defined decision-variable ids')
+    if not any(s.has_call(r) for r in MAX_IDIOMS): probs.append('does not take the maximum of the defined ids')
+    if not s.has_const(r'^1_u64$'): probs.append('no `+ 1`')
+    ctx.check(not probs, rule, 'T-CARRY', body.name.replace('#eager', ''), '%s: %s' % (what, '; '.join(probs)), site)
+    return s
+
+
+def is_dv_field_leaf(leaf):
+    k, key, _ = leaf
+    return k == 'field' and key[0] == 1 and [f for a, f in key[1]] == ['decision_variables']
 
 
 def check(ctx):
     R = 'C12'
-    body = ctx.method(R + '.anchor/log_encode', INST, 'log_encode')
-    if body is None: return
-    # the encoding loop = the loop that pushes decision variables
-    pushes = [c for c in body.calls if c.item == 'push' and re.search(r'Vec::<v1::DecisionVariable>::push', c.name)]
-    ctx.check(len(pushes) == 1, R + '.loop/one-push', 'T-LOOPMUST', body.name, 'expected one decision_variables.push, found %d' % len(pushes), body.site())
-    if len(pushes) != 1: return
-    push = pushes[0]
-    loop = [lo for lo in T.for_loops(body) if push.bb in lo[4]]
-    ctx.check(len(loop) == 1, R + '.loop/found', 'T-LOOPMUST', body.name, 'the push is not inside exactly one loop', body.site(push.bb))
-    if len(loop) != 1: return
-    nextc, header, some_bb, none_bb, blocks = loop[0]
-
-    def dominates_loop(g, rule, what):
-        ctx.check(body.dominates(g.switch_bb, header), rule, 'T-GUARD', body.name, '%s does not dominate the encoding loop' % what, body.site(g.switch_bb))
-
-    # ---- guard 1: unknown variable
-    finds = [c for c in body.calls if c.item in ('find', 'position') and 'Iterator' in (c.trait or '')]
-    ctx.check(len(finds) == 1, R + '.guards/unknown/lookup', 'T-ERRFLOW', body.name, 'expected one lookup of the variable, found %d' % len(finds), body.site())
-    for c in finds:
-        r = ctx.S.slice_operand(body, c.args[0]); cl = ctx.S.slice_operand(body, c.args[1])
-        ctx.check(r.has_field(INST, 'decision_variables') and cl.has_field(DV, 'id') and 2 in cl.params, R + '.guards/unknown/by-id', 'T-CARRY', body.name,
-                  'lookup does not search decision_variables by the given id', body.site(c.bb))
-        errflow_calls(ctx, R + '.guards/unknown/none-is-error', body, [c], 'variable lookup')
-        ctx.check(body.dominates(c.bb, header), R + '.guards/unknown/dominates', 'T-GUARD', body.name, 'lookup does not dominate the loop', body.site(c.bb))
-    # ---- guard 2: integer kind
-    kc = enum_eq_guard(ctx, R + '.guards/kind', body, r'decision_variable::Kind$', 'Integer', True, 'kind() == Integer', src_need=lambda s: s.has_field(DV, 'kind'))
-    if kc is not None:
-        ctx.check(body.dominates(kc.bb, header), R + '.guards/kind/dominates', 'T-GUARD', body.name, 'kind test does not dominate the loop', body.site(kc.bb))
-    # ---- guard 3: bound present
-    bopts = [c for c in body.calls if re.search(r'Option::<v1::Bound>::as_ref$|Option::<&v1::Bound>', c.name) and c.item in ('as_ref', 'ok_or', 'ok_or_else')]
-    bopts = [c for c in body.calls if c.item == 'as_ref' and 'Option::<v1::Bound>' in c.name]
-    ctx.check(len(bopts) >= 1, R + '.guards/no-bound/access', 'T-ERRFLOW', body.name, 'no access to the optional bound found', body.site())
-    for c in bopts:
-        r = ctx.S.slice_operand(body, c.args[0])
-        ctx.check(r.has_field(DV, 'bound'), R + '.guards/no-bound/field', 'T-CARRY', body.name, 'not the variable\'s bound', body.site(c.bb))
-        errflow_calls(ctx, R + '.guards/no-bound/none-is-error', body, [c], 'missing bound')
-        ctx.check(body.dominates(c.bb, header), R + '.guards/no-bound/dominates', 'T-GUARD', body.name, 'bound test does not dominate the loop', body.site(c.bb))
-    # bound must never be defaulted
+    body0 = ctx.method(R + '.anchor/log_encode', INST, 'log_encode')
+    if body0 is None: return
+    body = eagerise(ctx, body0)
+    fn = body0.name
+    # ---- the encoding loop = the loop that pushes decision variables onto self.decision_variables
+    pushes = []
     for c in body.calls:
-        if 'v1::Bound' in c.name and c.item in ('unwrap_or_default', 'unwrap_or', 'unwrap_or_else'):
-            ctx.bad(R + '.guards/no-bound/defaulted', 'T-ERRFLOW', body.name, 'missing bound is defaulted by ' + c.item, body.site(c.bb))
+        if c.item == 'push' and len(c.args) == 2 and '::Vec::<' in c.name:
+            r, fs, _ = root_of(body, c.args[0], REF_TRANSPARENT)
+            if r == 1 and [f for a, f in fs] == ['decision_variables']: pushes.append(c)
+    ctx.check(bool(pushes), R + '.loop/push', 'T-LOOPMUST', fn, 'nothing is pushed onto self.decision_variables', body.site())
+    if not pushes: return
+    floops = T.for_loops(body)
+    def inner(bb):
+        best = None
+        for lo in floops:
+            if bb in lo[4] and (best is None or len(lo[4]) < len(best[4])): best = lo
+        return best
+    loop = inner(pushes[0].bb)
+    ctx.check(loop is not None and all(inner(c.bb) is loop for c in pushes), R + '.loop/found', 'T-LOOPMUST', fn, 'the pushes are not inside one loop', body.site(pushes[0].bb))
+    if loop is None: return
+    nextc, header, some_bb, none_bb, blocks = loop
+    push_bbs = {c.bb for c in pushes}
+    targets = set(body.strict_ok_exits()) | push_bbs | {header}
+
+    def decide(rule, tests, none_msg, weak_msg, template='T-GUARD'):
+        good = [t for t in tests if protects(body, t, targets)]
+        ctx.counters['cfg_paths'] += len(tests)
+        if good: ctx.ok(rule, template, body.site(good[0].sb), guard=good[0].what, shape=good[0].describe())
+        elif not tests: ctx.bad(rule, template, fn, none_msg, body.site())
+        else: ctx.bad(rule, template, fn, weak_msg, body.site(tests[0].sb), seen='; '.join(t.describe() for t in tests)[:300])
+        return good
+
+    # ---- guard 1: unknown variable.  A loop over self.decision_variables compares item.id with the argument;
+    # running out of items is an error  (find / position / any / explicit for, all the same after normalisation)
+    lookups = []
+    for lo in floops:
+        if lo is loop or not any(is_dv_field_leaf(x) for x in seq_sources(body, lo[0].args[0])): continue
+        for bi, st in body.stmts():
+            if bi not in lo[4] or st['rv']['k'] != 'bin' or st['rv']['op'] not in ('Eq', 'Ne'): continue
+            ss = [ctx.S.slice_operand(body, o, depth=0) for o in st['rv']['ops']]
+            for x, y in ((ss[0], ss[1]), (ss[1], ss[0])):
+                if x.has_field(DV, 'id') and lo[0].dst['l'] in x.locals and 2 in y.params and not y.has_field(DV, 'id'):
+                    lookups.append((lo, bi)); break
+    ctx.check(bool(lookups), R + '.guards/unknown/lookup', 'T-ERRFLOW', fn, 'no search of self.decision_variables by the given id', body.site())
+    for lo, bi in lookups[:1]:
+        t = Test(lo[1], [lo[2]], [lo[3]], 'lookup by id exhausted')
+        # the header block holds the `next` call; the switch on its result follows it
+        arms = T.option_arms(body, lo[0].dst['l'])
+        if arms: t = Test(arms[0][0], [lo[2]], [lo[3]], 'lookup by id exhausted')
+        decide(R + '.guards/unknown/none-is-error', [t], '', 'a variable that is not found does not lead to an error before anything else happens', 'T-ERRFLOW')
+    # ---- guard 2: integer kind
+    kind_adt = ctx.F.adt('v1::decision_variable::Kind')
+    INTEGER = None
+    if kind_adt:
+        for v in kind_adt['variants']:
+            if v['name'] == 'Integer': INTEGER = v['discr']
+    from_kind = lambda s: s.has_field(DV, 'kind') or s.has_call(r'v1::DecisionVariable::kind$')
+    ktests = []
+    for c in body.calls:
+        # `v.kind() == Kind::Integer` / `!=`
+        if c.item in ('eq', 'ne') and 'PartialEq' in (c.trait or '') and re.search(r'decision_variable::Kind$', c.self_ty or ''):
+            vs = [enum_variant_of_operand(ctx, body, a) for a in c.args]
+            if not any(v and v.endswith('::Integer') for v in vs): continue
+            others = [a for a, v in zip(c.args, vs) if not (v and v.endswith('::Integer'))]
+            if not others or not from_kind(ctx.S.slice_operand(body, others[0])): continue
+            ktests += bool_tests(body, c.dst['l'], c.item == 'eq', 'kind() == Integer')
+    if INTEGER is not None:
+        # `matches!(v.kind(), Kind::Integer)` / `match v.kind() { Kind::Integer => .., _ => error }`
+        for bi, st in body.stmts():
+            rv = st['rv']
+            if rv['k'] != 'discr' or not body.locals[rv['pl']['l']].lstrip('&').endswith('decision_variable::Kind'): continue
+            if not from_kind(ctx.S.slice_operand(body, {'k': 'copy', 'pl': rv['pl']})): continue
+            for k3, b3, sw in body.uses.get(st['dst']['l'], ()):
+                if k3 != 'switch': continue
+                m = {v: t for v, t in sw['ts']}
+                if INTEGER not in m: continue
+                fails = [t for v, t in sw['ts'] if v != INTEGER] + [sw['else']]
+                fails = [f for f in fails if body.blocks[f]['term']['k'] != 'unreachable'] or [sw['else']]
+                ktests.append(Test(b3, [m[INTEGER]], fails, 'match kind() { Integer => .. }'))
+    decide(R + '.guards/kind', ktests, 'no test `kind() == Integer` found', 'test `kind() == Integer` does not keep other kinds away from the encoding')
+    # ---- guard 3: bound present
+    btests = []; bsrc = 0
+    opt_bound = re.compile(r"^std::option::Option<&?('\w+ )?v1::Bound>$")
+    for l, ty in enumerate(body.locals):
+        if not opt_bound.match(ty.strip()) or not body.defs_of(l): continue
+        if not ctx.S.backslice(body, [l], depth=0).has_field(DV, 'bound'): continue
+        bsrc += 1
+        btests += option_tests(body, l, 'bound is Some')
+    for bi, st in body.stmts():
+        # `match v.bound { .. }` / `if let Some(b) = &v.bound`: discriminant read straight from the field
+        rv = st['rv']
+        if rv['k'] == 'discr' and fields_of_place(rv['pl'])[-1:] and fields_of_place(rv['pl'])[-1][1] == 'bound' and fields_of_place(rv['pl'])[-1][0].endswith(DV):
+            bsrc += 1
+            for k3, b3, sw in body.uses.get(st['dst']['l'], ()):
+                if k3 == 'switch':
+                    m = {v: t for v, t in sw['ts']}
+                    btests.append(Test(b3, [m.get(1, sw['else'])], [m.get(0, sw['else'])], 'bound is Some (field match)'))
+    ctx.check(bsrc >= 1, R + '.guards/no-bound/access', 'T-ERRFLOW', fn, 'no access to the optional bound found', body.site())
+    decide(R + '.guards/no-bound/none-is-error', btests, 'the optional bound is never tested', 'a missing bound does not lead to an error before anything else happens', 'T-ERRFLOW')
+    # bound must never be defaulted
+    dflt = [c for c in body.calls if 'v1::Bound' in c.name and c.item in ('unwrap_or_default', 'unwrap_or', 'unwrap_or_else')]
+    ctx.check(not dflt, R + '.guards/no-bound/defaulted', 'T-ERRFLOW', fn, 'missing bound is defaulted by ' + ', '.join(c.item for c in dflt), body.site(dflt[0].bb) if dflt else body.site())
     # ---- guard 4: finiteness of both ends
+    finite_tests = {}
     for side in ('lower', 'upper'):
-        ok = None
+        ts = []
         for c in body.calls:
             if c.item == 'is_finite' and 'f64' in c.name:
                 fs, root, _ = T.access_path(body, c.args[0])
-                if ('v1::Bound', side) in fs and ('v1::DecisionVariable', 'bound') in fs:
-                    for g in T.guards_from_call(body, c):
-                        ctx.counters['cfg_paths'] += 1
-                        if g.requires(True) and body.dominates(g.switch_bb, header): ok = (c, g)
-        ctx.check(ok is not None, R + '.guards/finite/' + side, 'T-GUARD', body.name,
-                  'no `bound.%s.is_finite()` test guarding the encoding loop (an infinite bound makes the bit count unbounded)' % side, body.site())
+                if (BOUND, side) in fs and (DV, 'bound') in fs:
+                    ts += bool_tests(body, c.dst['l'], True, 'bound.%s.is_finite()' % side)
+        finite_tests[side] = ts
+        decide(R + '.guards/finite/' + side, ts, 'no `bound.%s.is_finite()` test guarding the encoding loop (an infinite bound makes the bit count unbounded)' % side,
+               '`bound.%s.is_finite()` does not keep a non-finite bound away from the encoding loop' % side)
     # ---- guard 5: the range contains an integer
-    okr = None
-    for bi, st in float_cmp_sites(body, ('Ge', 'Lt', 'Gt', 'Le')):
-        ops = st['rv']['ops']
-        if not any(o['k'] == 'const' and T.f64_const(o['v']) == 0.0 for o in ops): continue
-        other = [o for o in ops if o['k'] != 'const']
-        if not other: continue
-        s = ctx.S.slice_operand(body, other[0])
-        if s.has_call(r'f64>::floor$') and s.has_call(r'f64>::ceil$') and s.has_field('v1::Bound', 'upper') and s.has_field('v1::Bound', 'lower'):
-            op = st['rv']['op']; const_right = ops[1]['k'] == 'const'
-            # u_l >= 0 must hold: Ge(x,0) true / Lt(x,0) false / Le(0,x) true / Gt(0,x) false
-            need = (op == 'Ge' and const_right) or (op == 'Le' and not const_right)
-            need_false = (op == 'Lt' and const_right) or (op == 'Gt' and not const_right)
-            for g in T.guards_from_local(body, st['dst']['l'], bi):
-                if (need and g.requires(True)) or (need_false and g.requires(False)):
-                    if body.dominates(g.switch_bb, header): okr = (bi, g)
-    ctx.check(okr is not None, R + '.guards/empty-range', 'T-GUARD', body.name, 'no `floor(upper) - ceil(lower) >= 0` test guarding the loop', body.site())
+    nonneg, zero_arms = width_tests(ctx, body)
+    decide(R + '.guards/empty-range', nonneg, 'no `floor(upper) - ceil(lower) >= 0` test guarding the loop',
+           'the `floor(upper) - ceil(lower) >= 0` test does not keep an empty range away from the encoding')
     # floor on upper, ceil on lower (not swapped)
     for c in body.calls:
-        if c.item in ('floor', 'ceil') and 'f64' in c.name and not (set(blocks) & {c.bb}):
+        if c.item in ('floor', 'ceil') and 'f64' in c.name and c.bb not in blocks:
             fs, root, _ = T.access_path(body, c.args[0])
-            if ('v1::Bound', 'upper') in fs:
-                ctx.check(c.item == 'floor', R + '.round/upper-floor', 'T-BRANCHFX', body.name, 'upper bound is rounded with ' + c.item, body.site(c.bb))
-            elif ('v1::Bound', 'lower') in fs:
-                ctx.check(c.item == 'ceil', R + '.round/lower-ceil', 'T-BRANCHFX', body.name, 'lower bound is rounded with ' + c.item, body.site(c.bb))
-    # ---- C12.cast: f64 -> usize cast feeding the loop bound is dominated by finiteness tests
+            if (BOUND, 'upper') in fs:
+                ctx.check(c.item == 'floor', R + '.round/upper-floor', 'T-BRANCHFX', fn, 'upper bound is rounded with ' + c.item, body.site(c.bb))
+            elif (BOUND, 'lower') in fs:
+                ctx.check(c.item == 'ceil', R + '.round/lower-ceil', 'T-BRANCHFX', fn, 'lower bound is rounded with ' + c.item, body.site(c.bb))
+    # ---- C12.cast: f64 -> usize cast feeding the loop bound is protected by finiteness tests
     si = ctx.S.slice_operand(body, nextc.args[0])
     casts = [(bi, st) for bi, st in body.stmts() if st['rv']['k'] == 'cast' and st['rv']['to'] == 'usize' and st['dst']['l'] in si.locals
              and st['rv']['ops'][0]['k'] in ('copy', 'move') and body.locals[st['rv']['ops'][0]['pl']['l']] == 'f64']
     for bi, st in casts:
         s = ctx.S.slice_operand(body, st['rv']['ops'][0])
-        srcs = sorted(f for a, f in s.fields if a.endswith('v1::Bound'))
-        guarded = []
-        for c in body.calls:
-            if c.item == 'is_finite':
-                gs = [g for g in T.guards_from_call(body, c) if g.requires(True) and body.dominates(g.switch_bb, bi)]
-                if gs: guarded += [f for a, f in T.access_path(body, c.args[0])[0] if a.endswith('v1::Bound')]
-        ctx.check(set(srcs) <= set(guarded), R + '.cast/finite-before-usize', 'T-GUARD', body.name,
-                  'loop trip count is an f64→usize cast of a value depending on %s without a dominating finiteness test' % sorted(set(srcs) - set(guarded)), body.site(bi))
+        srcs = sorted({f for a, f in s.fields if a.endswith(BOUND)})
+        guarded = [side for side in ('lower', 'upper') if any(protects(body, t, {bi}, need_err=False) for t in finite_tests[side])]
+        ctx.check(set(srcs) <= set(guarded), R + '.cast/finite-before-usize', 'T-GUARD', fn,
+                  'loop trip count is an f64→usize cast of a value depending on %s without a finiteness test in front of it' % sorted(set(srcs) - set(guarded)), body.site(bi))
     # ---- single-integer range: constant result, nothing pushed
-    eq0 = None
-    for bi, st in float_cmp_sites(body, ('Eq',)):
-        if any(o['k'] == 'const' and T.f64_const(o['v']) == 0.0 for o in st['rv']['ops']):
-            oth = [o for o in st['rv']['ops'] if o['k'] != 'const']
-            ex = T.expr(body, oth[0]) if oth else ('local', -1)
-            if not (T.expr_has_call(ex, 'floor') and T.expr_has_call(ex, 'ceil')): continue
-            for g in T.guards_from_local(body, st['dst']['l'], bi):
-                r = T.reach_cp(body, [g.true_bb])
-                if (r & body.strict_ok_exits()) and push.bb not in r and not (r & set(blocks)): eq0 = (bi, g)
-    ctx.check(eq0 is not None, R + '.single/returns-without-push', 'T-BRANCHFX', body.name, 'no `u - l == 0` early return that adds no variable', body.site())
-    if eq0:
-        r = T.reach_cp(body, [eq0[1].true_bb])
+    oks = body.strict_ok_exits()
+    single = None
+    for sb, arm in zero_arms:
+        r = feasible_reach(body, [0], via={(sb, arm)})
+        if (r & oks) and not (r & push_bbs) and not (r & set(blocks)): single = (sb, arm, r)
+    ctx.check(single is not None, R + '.single/returns-without-push', 'T-BRANCHFX', fn, 'no `u - l == 0` early return that adds no variable', body.site())
+    single_region = single[2] if single else set()
+    if single:
         for e, k, st in body.ret_assignments():
-            if e in r and k == 'ok':
-                s = ctx.S.slice_operand(body, st['rv']['ops'][0])
-                ctx.check(s.has_call(r'From<f64> for v1::Linear>::from') and s.has_call(r'f64>::ceil$') and s.has_field('v1::Bound', 'lower'),
-                          R + '.single/constant-is-lower', 'T-CARRY', body.name, 'the constant returned for a single-integer range is not ceil(lower)', body.site(e))
+            if e in single_region and k == 'ok':
+                d = _whole_defs(body, root_of(body, st['rv']['ops'][0])[0])
+                frm = _callmap(body).get(d[0][1]) if len(d) == 1 and d[0][0] == 'call' else None
+                ctx.check(frm is not None and re.search(r'From<f64> for v1::Linear>::from$', frm.name) is not None and is_rounded(xexpr(body, frm.args[0]), 'ceil', 'lower'),
+                          R + '.single/constant-is-lower', 'T-CARRY', fn, 'the constant returned for a single-integer range is not ceil(lower)', body.site(e))
     # ---- atomic
     for what, bi, badexits in T.check_atomic(body, ctx.S, ctx.F):
-        ctx.check(not badexits, R + '.atomic', 'T-ATOMIC', body.name, 'an Err-exit (bb%s) is reachable after mutation `%s`' % (badexits, what), body.site(bi))
-    writes_only(ctx, R + '.only-decision-variables', body, {'decision_variables'})
+        ctx.check(not badexits, R + '.atomic', 'T-ATOMIC', fn, 'an Err-exit (bb%s) is reachable after mutation `%s`' % (badexits, what), body.site(bi))
+    w = self_writes(ctx, body)
+    extra = sorted(x for x in w if x not in {'decision_variables'})
+    ctx.check(not extra, R + '.only-decision-variables', 'T-ATOMIC', fn, 'writes to self outside decision_variables: %s' % extra, body.site(), writes=sorted(w))
     # ---- pushed variables
-    aggs = [(bi, st) for bi, st in find_aggregates(body, DV) if bi in blocks]
-    ctx.check(len(aggs) == 1, R + '.vars/one-aggregate', 'T-CARRY', body.name, 'expected one DecisionVariable aggregate in the loop, found %d' % len(aggs), body.site())
-    for bi, st in aggs:
+    for pc in pushes:
+        a = agg_def(body, root_of(body, pc.args[1])[0], DV)
+        ctx.check(a is not None and a[0] in blocks, R + '.vars/literal', 'T-CARRY', fn, 'the value pushed is not a DecisionVariable built in the same iteration', body.site(pc.bb))
+        if a is None: continue
+        bi, st = a
         ks = carry_field(ctx, R + '.vars/kind-binary', body, st, 'kind', need_consts=[r'Kind::Binary'], site=body.site(bi))
         if ks is not None:
-            ctx.check(not ks.has_const(r'Kind::(Integer|Continuous|SemiInteger|SemiContinuous|Unspecified)'), R + '.vars/kind-only-binary', 'T-CONST', body.name, 'kind depends on another Kind constant', body.site(bi))
+            ctx.check(not ks.has_const(r'Kind::(Integer|Continuous|SemiInteger|SemiContinuous|Unspecified)'), R + '.vars/kind-only-binary', 'T-CONST', fn, 'kind depends on another Kind constant', body.site(bi))
         bo = agg_field_operand(st, 'bound'); okb = False
         s = slice_op(ctx, body, bo)
-        for b2, st2 in find_aggregates(body, 'v1::Bound'):
+        for b2, st2 in find_aggregates(body, BOUND):
             if st2['dst']['l'] in s.locals:
                 vals = [T.f64_const(o['v']) if o['k'] == 'const' else None for o in st2['rv']['ops']]
-                fl = st2['rv']['fields']
-                d = dict(zip(fl, vals))
+                d = dict(zip(st2['rv']['fields'], vals))
                 okb = d.get('lower') == 0.0 and d.get('upper') == 1.0
-        ctx.check(okb, R + '.vars/bound-0-1', 'T-CONST', body.name, 'bound of the new variables is not Some([0,1])', body.site(bi))
-        ids = fresh_id_rule(ctx, R + '.vars/fresh-id', body, agg_field_operand(st, 'id'), 'id of the new binary variable')
-        ctx.check(nextc in ids.call_objs, R + '.vars/id-per-bit', 'T-CARRY', body.name, 'id does not depend on the bit index', body.site(bi))
+        ctx.check(okb, R + '.vars/bound-0-1', 'T-CONST', fn, 'bound of the new variables is not Some([0,1])', body.site(bi))
+        idop = agg_field_operand(st, 'id')
+        ids = fresh_id(ctx, R + '.vars/fresh-id', body, idop, 'id of the new binary variable', body.site(bi))
+        # (expression tree, not the slice: id_base comes from `self`, which the loop itself mutates, so the slice of
+        #  anything read from `self` contains the loop)
+        ide = xexpr(body, idop)
+        ctx.check(any(x[0] == 'call' and len(x) > 4 and x[4] == nextc.bb for x in T.expr_walk(ide)), R + '.vars/id-per-bit', 'T-CARRY', fn,
+                  'id is not computed from the bit index', body.site(bi), id_expr=T.expr_str(ide))
         ss = carry_field(ctx, R + '.vars/subscripts', body, st, 'subscripts', need_params=[2], site=body.site(bi))
         if ss is not None:
-            ctx.check(nextc in ss.call_objs, R + '.vars/subscripts-bit', 'T-CARRY', body.name, 'subscripts do not contain the bit index', body.site(bi))
+            ctx.check(nextc in ss.call_objs, R + '.vars/subscripts-bit', 'T-CARRY', fn, 'subscripts do not contain the bit index', body.site(bi))
         # the same id goes into the returned linear expression
-        idop = agg_field_operand(st, 'id')
-        idl = idop['pl']['l'] if idop['k'] in ('copy', 'move') else None
+        src = root_of(body, idop)[0]
         for e, k, rst in body.ret_assignments():
-            if k == 'ok' and e not in (T.reach_cp(body, [eq0[1].true_bb]) if eq0 else set()):
-                rs = ctx.S.slice_operand(body, rst['rv']['ops'][0])
-                src = None
-                if idl is not None:
-                    for k2, b2, d2 in body.defs_of(idl):
-                        if k2 == 'stmt' and d2['rv']['k'] == 'use' and d2['rv']['ops'][0]['k'] in ('copy', 'move'): src = d2['rv']['ops'][0]['pl']['l']
-                ctx.check(src is not None and src in rs.locals and rs.has_call(r'impl v1::Linear>::new') and rs.has_call(r'f64>::ceil$'),
-                          R + '.result/uses-new-ids-and-lower', 'T-CARRY', body.name, 'returned Linear does not use the new ids / ceil(lower)', body.site(e))
-    loop_must(ctx, R + '.loop/push-every-bit', body, loop[0], lambda c: c.bb == push.bb, 'decision_variables.push')
+            if k == 'ok' and e not in single_region:
+                # precise: Ok(Linear::new(terms, c)) where every element pushed onto `terms` is (the id given to the
+                # pushed variable, _) and c = ceil(lower)
+                d = _whole_defs(body, root_of(body, rst['rv']['ops'][0])[0])
+                new = _callmap(body).get(d[0][1]) if len(d) == 1 and d[0][0] == 'call' else None
+                precise = False
+                if new is not None and re.search(r'impl v1::Linear>::new(::<.*>)?$', new.name) and len(new.args) == 2:
+                    tv = root_of(body, new.args[0], SEQ_TRANSPARENT, cross_proj=False)[0]
+                    tp = pushes_into(body, tv) if tv is not None else []
+                    firsts = []
+                    for c in tp:
+                        ta = agg_def(body, root_of(body, c.args[1])[0], 'tuple')
+                        firsts.append(root_of(body, ta[1]['rv']['ops'][0])[0] if ta and ta[1]['rv']['ops'] else None)
+                    precise = bool(firsts) and all(f is not None and f == src for f in firsts) and all(c.bb in blocks for c in tp) \
+                        and is_rounded(xexpr(body, new.args[1]), 'ceil', 'lower')
+                ctx.check(precise, R + '.result/uses-new-ids-and-lower', 'T-CARRY', fn,
+                          'the returned Linear is not `Linear::new(terms, ceil(lower))` with every term pushed as (id of the variable pushed in the same iteration, _)', body.site(e))
+    loop_must(ctx, R + '.loop/push-every-bit', body, loop, lambda c: c.bb in push_bbs, 'decision_variables.push')
     # the loop starts at bit 0
     rng = [st for bi, st in body.stmts() if st['rv']['k'] == 'agg' and st['rv']['adt'].endswith('ops::Range') and st['dst']['l'] in si.locals]
-    ctx.check(len(rng) == 1 and rng[0]['rv']['ops'][0].get('v') == '0_usize', R + '.loop/from-bit-0', 'T-CONST', body.name, 'bit loop does not start at 0', body.site())
-    ctx.floor('C12.guards', 12); ctx.floor('C12.vars', 8); ctx.floor('C12.cast', 1); ctx.floor('C12.single', 2); ctx.floor('C12.atomic', 1)
-
-
+    ctx.check(len(rng) >= 1 and all(r['rv']['ops'][0].get('v') == '0_usize' for r in rng), R + '.loop/from-bit-0', 'T-CONST', fn, 'bit loop does not start at 0', body.site())
+    ctx.floor('C12.guards', 9); ctx.floor('C12.vars', 8); ctx.floor('C12.cast', 1); ctx.floor('C12.single', 2); ctx.floor('C12.atomic', 2)
+    ctx.floor('C12.loop', 5); ctx.floor('C12.round', 2); ctx.floor('C12.result', 1)
